@@ -26,6 +26,15 @@
 (*                   salt then cannot log in a second time                 *)
 (*   BoundReferrals  FALSE: realms that refer to each other keep the       *)
 (*                   client busy for ever                                  *)
+(*   UnsolicitedFromTkt  FALSE: before anything is negotiated the etype *)
+(*                   of an unsolicited timestamp is the constant Preferred *)
+(*                   (gokrb5 as found: preferred_preauth_types[0] - a      *)
+(*                   pre-authentication TYPE number, 17 - read as etype    *)
+(*                   aes128); a keytab without a key of that etype then    *)
+(*                   fails every Login before anything is sent.  TRUE: it  *)
+(*                   is the first etype the request offers (cred.tkt) for  *)
+(*                   which the credential has a key; when there is none,   *)
+(*                   the request goes out without a timestamp              *)
 (*   Faithful        TRUE: the first request of a Login is exactly what    *)
 (*                   the code sends (PA iff assume, etype = negotiated or  *)
 (*                   the configured first choice); FALSE: any first        *)
@@ -36,11 +45,12 @@ EXTENDS Integers, Sequences, FiniteSets, TLC
 CONSTANTS Realms, Home,
           Etypes,            \* etypes the library implements
           Preferred,         \* etype of an unsolicited PA-ENC-TIMESTAMP when nothing was negotiated yet
-          Creds,             \* the credentials and options a client may be created with: [password, keyEts, assumeInit]
+          Creds,             \* the credentials and options a client may be created with: [password, keyEts, assumeInit, tkt]
                              \*   password: TRUE password credential, FALSE keytab; keyEts: etypes it has a key for (password: all
-                             \*   of Etypes); assumeInit: the AssumePreAuthentication option
+                             \*   of Etypes); assumeInit: the AssumePreAuthentication option; tkt: the etypes its AS-REQs offer
+                             \*   (default_tkt_enctypes), in order
           MaxReferrals,      \* referral counts 0..MaxReferrals are followed (5 in gokrb5)
-          HintsOnFailed, BoundReferrals, Faithful,
+          HintsOnFailed, BoundReferrals, UnsolicitedFromTkt, Faithful,
           Codes,             \* KRB-ERROR codes other than 24, 25, 68 a KDC may answer
           MaxLogins
 VARIABLES cred,        \* the client's credential and options (fixed when the client is created)
@@ -72,11 +82,16 @@ Init == /\ cred \in Creds /\ pc = "idle" /\ at = Home /\ referral = 0 /\ assume 
         /\ outcome = "none" /\ code = 0 /\ last = NoAnswer /\ logins = 0
 \* ---- what setPAData(cl, nil, ...) puts into the first request of an ASExchange call ------------------------------------------------
 \* the set of [ok, r]: ok = FALSE: no key for the chosen etype, nothing is sent
-AsCoded == IF assume THEN LET e == IF negotiated # 0 THEN negotiated ELSE Preferred IN {[ok |-> e \in KeyEtypes, r |-> PAReq(e, OwnSalt)]}
+FirstHeld == LET idx == {i \in DOMAIN cred.tkt : cred.tkt[i] \in KeyEtypes} IN
+               IF idx = {} THEN 0 ELSE cred.tkt[CHOOSE i \in idx : \A j \in idx : i <= j]
+AsCoded == IF assume THEN LET e == IF negotiated # 0 THEN negotiated ELSE IF UnsolicitedFromTkt THEN FirstHeld ELSE Preferred IN
+                          IF e = 0 THEN {[ok |-> TRUE, r |-> NoPA]} ELSE {[ok |-> e \in KeyEtypes, r |-> PAReq(e, OwnSalt)]}
                      ELSE {[ok |-> TRUE, r |-> NoPA]}
+\* not Faithful: any first request the credential can produce; failing before anything is sent is left to the code only when an earlier
+\* KDC named an etype the credential has no key for (no conformant KDC does: it chooses among the etypes the request offers)
 Unsolicited ==
   IF Faithful THEN AsCoded
-  ELSE {[ok |-> TRUE, r |-> NoPA]} \cup {[ok |-> TRUE, r |-> PAReq(e, OwnSalt)] : e \in KeyEtypes} \cup {u \in AsCoded : ~u.ok}
+  ELSE {[ok |-> TRUE, r |-> NoPA]} \cup {[ok |-> TRUE, r |-> PAReq(e, OwnSalt)] : e \in KeyEtypes} \cup {u \in AsCoded : ~u.ok /\ negotiated # 0}
 Finish(o, c, a) == /\ pc' = "idle" /\ outcome' = o /\ code' = c /\ last' = a /\ req' = NoPA
 Send(r, realm, stage) == /\ pc' = stage /\ req' = r /\ at' = realm /\ sends' = sends + 1 /\ UNCHANGED <<outcome, code, last>>
 \* ---- Login -------------------------------------------------------------------------------------------------------------------------
